@@ -7,10 +7,10 @@ CLAIMS = {
  "C01": ("refusal gate bound to the FileDesc's own OTI/object (MPT+WMC); per-scheme capacity constants fit the wire field; partition call agreement and RFC 5052 closed forms; Z written >= 1; metadata flow object -> FDT File -> writer metadata; decoding parameters only from packet / FDT; BlockWriter byte accounting, MD5 switch order, no feeding of the inflater after the content length; receive-once decision table; receiver block addressing; close-object flag never premature",
          "E2 structural rules over MIR (must-pass-through, who-may-call, slices, arm constants vs RFC widths), polynomial normal forms, E3 decision tables, E4 ranges",
          "byte-exact round trip, FEC/inflate/XML library behaviour and exactly-one-copy are NOT decided"),
- "C02": ("close-object flag accounts for every interleaved block, counts source symbols only (esi < k) and compares with the transfer length; symbol consumed before the flag acts, and the flag only ends an object that is attached to an FDT; duplicates neither overwrite nor count; decode thresholds over all orderings; attach_fdt records the instance id before it opens the writer, replays the cached packets in reception order and flushes decoded blocks; the transfer counter behind the B flag counts completed transfers only",
+ "C02": ("close-object flag accounts for every interleaved block, counts source symbols only (esi < k) and compares with the transfer length; symbol consumed before the flag acts, and the flag only ends an object that is attached to an FDT; duplicates neither overwrite nor count; decode thresholds over all orderings; the receiver's RS codec is built with the block's k and the OTI's parity count and symbol length; attach_fdt records the instance id before it opens the writer, replays the cached packets in reception order and flushes decoded blocks; the transfer counter behind the B flag counts completed transfers only",
          "E2 dependence/dominance rules + E3 decision tables over comparison orderings",
          "delivery for every loss pattern (liveness, MDS property of the RS library) is NOT decided"),
- "C03": ("MD5 gate before complete(); strict SBN order; first copy wins; at most one terminal writer call over all entry orders (typestate); stale packets ignored; decoding parameters only from packet / FDT; BlockWriter byte accounting (trim to bytes_left, content-length limit, MD5 finalised on completion, MD5 switch decided before the BlockWriter is built)",
+ "C03": ("MD5 gate before complete(); strict SBN order; first copy wins; every Completed object is entered in the registry that suppresses the rest of its own transfer (known finding F35 for no-cache objects); at most one terminal writer call over all entry orders (typestate); stale packets ignored; decoding parameters only from packet / FDT; BlockWriter byte accounting (trim to bytes_left, content-length limit, MD5 finalised on completion, MD5 switch decided before the BlockWriter is built)",
          "E2 dominance rules + E3 interprocedural typestate exploration",
          "equality of written bytes with the sender's bytes over all histories is NOT decided"),
  "C04": ("exhaustive inventory of panic-capable sites, loops, allocations and third-party calls reachable from the receiver entry points; each discharged by the range interpreter, reviewed in a table with re-checked guards (each precondition of the raptorq constructor as a dominating fact), or a known finding; failed / expired FDT instances are released (decision table over FDT states); the packet-cache byte counter is reset only where the cache was emptied",
@@ -31,7 +31,7 @@ CLAIMS = {
  "C09": ("who-may-call for the five ObjectWriter methods; typestate of the writer session over all orders and repetitions of the ObjectReceiver entry points followed by Drop; complete gated by is_completed+MD5 or zero length; writer created only when no session exists and FDT id / cenc / length / OTI are known, open only on StoreObject, MD5 switch decided before the BlockWriter; no leak primitives; decoding parameters only from packet / FDT (Null content encoding defaulted for TOI 0 only)",
          "E3 finite-domain interprocedural typestate interpreter with method summaries + E2 who-may-call",
          "'concatenated writes are a prefix of the content' (bytes) is NOT decided; user writers cannot re-enter the receiver"),
- "C10": ("instance id written only in new/publish, every stored value in [0,2^20-1] (initial value included), each queued instance followed by the increment and carrying the pre-increment id; metadata flow; Expires = ntp(now of this publication) + duration; last_publish recorded only after the instance was queued; renewal predicate shape and publish-before-pop; publish marks all files; list source by publish mode; receiver-side extraction order and sibling agreement; FDT bytes reach the parser unaltered",
+ "C10": ("instance id written only in new/publish, every stored value in [0,2^20-1] (initial value included), each queued instance followed by the increment and carrying the pre-increment id; metadata flow; Expires = ntp(now of this publication) + duration; last_publish recorded only after the instance was queued; renewal predicate shape and publish-before-pop; publish marks all files; list source by publish mode; every FEC scheme's OTI announced on FDT-Instance or on every File; receiver-side extraction order and sibling agreement; FDT bytes reach the parser unaltered",
          "E2 who-writes-field/pairing/dependence/fallback-order rules + E4 range of the assigned id",
          "XML well-formedness/escaping, set equality over histories and supersede timing are NOT decided"),
  "C11": ("FDT session polled first; object sessions emit only past the FDT-pending gate evaluated after get_next; FullFDT eligibility requires published; set_published only in publish and only after the instance is queued; auto-publish pairing",
